@@ -10,7 +10,7 @@ use vcore::{prop_search, Outcome, Run, Search};
 use wire::*;
 use wtransport::Connection;
 
-const RULE: &str = "case = runtime flavour x role x termination cause in {peer QUIC application close(code, reason), peer close capsule, peer clean FIN of the session stream, local Connection::close, protocol error provoked by the raw peer (DATA on the control stream), idle timeout (relay black hole), all handles dropped} x set of pending operations in separate tasks on 1..4 cloned handles drawn from {accept_uni, accept_bi, receive_datagram, closed, read, write (flow-control blocked), stopped, an opening future} x delay between issuing the calls and raising the cause x with/without stalled peer streams (stalled inside the preamble, after a complete GREASE frame, after GREASE + one byte, after the type varint of a uni stream, on a GREASE-type uni stream, after the complete preamble) x backlog of 0..7 datagrams and 0..11 streams of the session the application never picks up (hand-off queues full when the cause fires). Oracle: every pending call and three later calls of each kind complete within the bound with an error from the admissible set of the cause (exact peer code/reason, local protocol error, timeout, or a local close), never success, a hang, a panic or another cause; with all handles dropped the peer sees the connection closed and the endpoint has no open connection. Hook part: generated op sequences over shared_result / bichannel against a set-once / FIFO model. Non-trivial: >= 2 pending operations of different kinds when the cause fires; distinct = distinct case";
+const RULE: &str = "case = runtime flavour x role x termination cause in {peer QUIC application close(code, reason), peer close capsule, peer clean FIN of the session stream, local Connection::close, protocol error provoked by the raw peer (DATA on the control stream), STOP_SENDING(code) on the endpoint's own control stream, idle timeout (relay black hole), all handles dropped} x set of pending operations in separate tasks on 1..4 cloned handles drawn from {accept_uni, accept_bi, receive_datagram, closed, read, write (flow-control blocked), stopped, an opening future} x delay between issuing the calls and raising the cause x with/without stalled peer streams (stalled inside the preamble, after a complete GREASE frame, after GREASE + one byte, after the type varint of a uni stream, on a GREASE-type uni stream, after the complete preamble) x backlog of 0..7 datagrams and 0..11 streams of the session the application never picks up (hand-off queues full when the cause fires). Oracle: every pending call and three later calls of each kind complete within the bound with an error from the admissible set of the cause (exact peer code/reason, local protocol error, timeout, or a local close), never success, a hang, a panic or another cause; with all handles dropped the peer sees the connection closed and the endpoint has no open connection. Hook part: generated op sequences over shared_result / bichannel against a set-once / FIFO model. Non-trivial: >= 2 pending operations of different kinds when the cause fires; distinct = distinct case";
 
 #[derive(Clone, Debug, Serialize, Deserialize, PartialEq)]
 pub enum Cause {
@@ -21,6 +21,9 @@ pub enum Cause {
     ProtocolError,
     IdleTimeout,
     HandlesDropped,
+    /// the peer sends STOP_SENDING(code) on the endpoint's own control stream (a closed critical
+    /// stream: RFC 9114 6.2.1, H3_CLOSED_CRITICAL_STREAM)
+    PeerStopsLocalControl(u64),
 }
 
 #[derive(Clone, Debug, Serialize, Deserialize)]
@@ -62,6 +65,7 @@ pub fn case_strategy() -> impl Strategy<Value = Case> {
         1 => Just(Cause::PeerFin),
         2 => (code_strategy(), proptest::collection::vec(any::<u8>(), 0..40)).prop_map(|(c, r)| Cause::LocalClose(c, r)),
         2 => Just(Cause::ProtocolError),
+        2 => code_strategy().prop_map(Cause::PeerStopsLocalControl),
         1 => Just(Cause::IdleTimeout),
         3 => Just(Cause::HandlesDropped),
     ];
@@ -82,6 +86,7 @@ fn admissible_conn(cause: &Cause, got: &str) -> bool {
         Cause::PeerFin => got == "ApplicationClosed(0,)" || got == "LocallyClosed",
         Cause::LocalClose(..) | Cause::HandlesDropped => got == "LocallyClosed",
         Cause::ProtocolError => got == format!("LocalH3Error({})", h3_display(0x105)) || got == "LocallyClosed",
+        Cause::PeerStopsLocalControl(_) => got == format!("LocalH3Error({})", h3_display(0x104)) || got == "LocallyClosed",
         Cause::IdleTimeout => got == "TimedOut",
     }
 }
@@ -328,7 +333,7 @@ async fn exec_async(case: Arc<Case>) -> CaseResult {
         tokio::time::sleep(Duration::from_millis(case.delay_ms as u64)).await;
     }
     // healthy peer traffic in the same flight as the cause
-    let peer_driven = matches!(case.cause, Cause::PeerQuicClose(..) | Cause::PeerCapsule(..) | Cause::PeerFin | Cause::ProtocolError);
+    let peer_driven = matches!(case.cause, Cause::PeerQuicClose(..) | Cause::PeerCapsule(..) | Cause::PeerFin | Cause::ProtocolError | Cause::PeerStopsLocalControl(_));
     if peer_driven {
         for k in 0..case.noise {
             if k % 3 == 2 {
@@ -356,6 +361,26 @@ async fn exec_async(case: Arc<Case>) -> CaseResult {
         Cause::LocalClose(c, r) => conn.close(wtransport::VarInt::try_from_u64(*c).unwrap(), r),
         Cause::ProtocolError => {
             let _ = control.write_all(&refcodec::enc_frame(refcodec::registry::FRAME_DATA, b"zz")).await;
+        }
+        Cause::PeerStopsLocalControl(c) => {
+            // the endpoint's control stream is the unidirectional stream whose first byte is 0x00
+            let find = async {
+                loop {
+                    let Ok(mut r) = raw_conn.accept_uni().await else { return None };
+                    let mut b = [0u8; 1];
+                    match r.read_exact(&mut b).await {
+                        Ok(()) if b[0] == 0x00 => return Some(r),
+                        _ => raw_held.push(Box::new(r)),
+                    }
+                }
+            };
+            match tokio::time::timeout(Duration::from_secs(3), find).await {
+                Ok(Some(mut r)) => {
+                    let _ = r.stop(vi(*c));
+                    raw_held.push(Box::new(r));
+                }
+                _ => return CaseResult::Skip("the endpoint's control stream was not found".into()),
+            }
         }
         Cause::IdleTimeout => relay.as_ref().unwrap().blackhole(true, true),
         Cause::HandlesDropped => {}
@@ -492,6 +517,16 @@ async fn exec_async(case: Arc<Case>) -> CaseResult {
         }
     }
     // what the peer saw must not contradict the cause
+    if let Cause::PeerStopsLocalControl(_) = case.cause {
+        match tokio::time::timeout(Duration::from_secs(3), raw_conn.closed()).await {
+            Ok(e) => {
+                if close_seen(&e) != CloseSeen::Application(0x104, vec![]) {
+                    return viol("C09:peer-sees", format!("after STOP_SENDING on the endpoint's control stream the peer saw {:?}, expected application close 0x104", close_seen(&e)));
+                }
+            }
+            Err(_) => return CaseResult::Timeout("the endpoint's control stream was stopped: the application was told the connection ended, but the peer never saw a close".into()),
+        }
+    }
     if let Cause::ProtocolError = case.cause {
         match tokio::time::timeout(Duration::from_secs(3), raw_conn.closed()).await {
             Ok(e) => {
@@ -515,6 +550,7 @@ fn cause_name(c: &Cause) -> &'static str {
         Cause::PeerFin => "peer-fin",
         Cause::LocalClose(..) => "local-close",
         Cause::ProtocolError => "protocol-error",
+        Cause::PeerStopsLocalControl(_) => "peer-stops-local-control",
         Cause::IdleTimeout => "idle-timeout",
         Cause::HandlesDropped => "handles-dropped",
     }
@@ -527,6 +563,7 @@ fn cause_label(c: &Cause) -> &'static str {
         Cause::PeerFin => "cause:peer-fin",
         Cause::LocalClose(..) => "cause:local-close",
         Cause::ProtocolError => "cause:protocol-error",
+        Cause::PeerStopsLocalControl(_) => "cause:peer-stops-local-control",
         Cause::IdleTimeout => "cause:idle-timeout",
         Cause::HandlesDropped => "cause:handles-dropped",
     }
@@ -815,7 +852,7 @@ pub fn run(run: &Run) {
         |c| judge(|| exec(c), true, "C09:hang"),
         |c| serde_json::to_value(c).unwrap(),
     );
-    for l in ["cause:peer-quic-close", "cause:peer-capsule", "cause:peer-fin", "cause:local-close", "cause:protocol-error", "cause:idle-timeout", "cause:handles-dropped", "cause:handles-dropped+stalled", "handles-dropped+stalled-after-grease"] {
+    for l in ["cause:peer-quic-close", "cause:peer-capsule", "cause:peer-fin", "cause:local-close", "cause:protocol-error", "cause:peer-stops-local-control", "cause:idle-timeout", "cause:handles-dropped", "cause:handles-dropped+stalled", "handles-dropped+stalled-after-grease"] {
         run.essential(l);
     }
 }
